@@ -73,7 +73,53 @@ fn reply(a: &Value, b: &Value) -> String {
     )
 }
 
-pub fn exec(_label: &str, input: &str, out: &mut CaseOut) {
+/// Numbers whose unit is NOT the database singleton: a field-for-field copy of a database unit at another address, and
+/// an application-defined unit built twice (`Unit` has public fields, `Number.unit` takes any `&'static Unit`).  Equal
+/// content must mean equal values, equal hashes and `cmp` Equal, whatever the addresses.  (Oracle only: the exchange
+/// format names units by symbol, so these values have no request.)
+fn exec_clones(out: &mut CaseOut) {
+    use libhaystack::units::Unit;
+    out.nontrivial = true;
+    out.stat("unit_clones");
+    fn leak(u: &Unit) -> &'static Unit {
+        use libhaystack::units::unit_dimension::UnitDimensions;
+        let dimensions = u.dimensions.as_ref().map(|d| UnitDimensions { kg: d.kg, m: d.m, sec: d.sec, k: d.k, a: d.a, mol: d.mol, cd: d.cd });
+        Box::leak(Box::new(Unit { quantity: u.quantity.clone(), ids: u.ids.clone(), dimensions, scale: u.scale, offset: u.offset }))
+    }
+    let custom = || -> &'static Unit {
+        Box::leak(Box::new(Unit { quantity: Some("custom".into()), ids: vec!["widget".into(), "wdg".into()], dimensions: None, scale: 1.0, offset: 0.0 }))
+    };
+    let m = libhaystack::units::get_unit("m").expect("m");
+    let s = libhaystack::units::get_unit("s").expect("s");
+    let (m1, m2, s1, w1, w2) = (leak(m), leak(m), leak(s), custom(), custom());
+    let n = |x: f64, u: &'static Unit| Value::Number(Number { value: x, unit: Some(u) });
+    let triples: Vec<[Value; 3]> = vec![
+        [n(1.0, m), n(1.0, m1), n(1.0, m2)],
+        [n(1.0, m1), n(1.0, s1), n(1.0, s)],
+        [n(2.5, w1), n(2.5, w2), n(2.5, m)],
+        [n(0.0, w1), n(-0.0, w2), n(1.0, w1)],
+        [Value::List(vec![n(1.0, m1)]), Value::List(vec![n(1.0, m2)]), Value::List(vec![n(1.0, m)])],
+        [
+            Value::make_dict(Dict::from_iter([("a".to_string(), n(3.0, w1))])),
+            Value::make_dict(Dict::from_iter([("a".to_string(), n(3.0, w2))])),
+            Value::make_dict(Dict::from_iter([("a".to_string(), n(3.0, m1))])),
+        ],
+    ];
+    for t in &triples {
+        // content-equal units: the first two of every triple but the second are equal values
+        oracles(t, out);
+    }
+    for (x, y) in [(&triples[0][0], &triples[0][1]), (&triples[0][1], &triples[0][2]), (&triples[2][0], &triples[2][1]), (&triples[4][0], &triples[4][1]), (&triples[5][0], &triples[5][1])] {
+        if x != y {
+            out.fail("eq_by_content", format!("Numbers whose units are equal field for field (at different addresses) are not equal: {x:?} vs {y:?}"));
+        }
+    }
+}
+
+pub fn exec(label: &str, input: &str, out: &mut CaseOut) {
+    if label == "clones" {
+        return exec_clones(out);
+    }
     let vals = match vx::parse(input) {
         Some(Value::List(l)) if l.len() == 3 => l,
         _ => {
@@ -100,6 +146,12 @@ pub fn exec(_label: &str, input: &str, out: &mut CaseOut) {
     if a.partial_cmp(b).is_none() {
         out.stat("pair_partial_none");
     }
+    oracles(&vals, out);
+}
+
+/// the laws of the property on one triple, directly on the real code
+fn oracles(vals: &[Value], out: &mut CaseOut) {
+    let (a, b, c) = (&vals[0], &vals[1], &vals[2]);
     // ---- oracles -------------------------------------------------------------------------
     for x in [a, b, c] {
         if !(x == x) {
@@ -146,7 +198,7 @@ pub fn exec(_label: &str, input: &str, out: &mut CaseOut) {
     // HashSet<&Dict> / BTreeMap<&Dict,_> by these).  `slice::sort()` and `BTreeSet::from_iter` go
     // through `lt`, i.e. `partial_cmp`, whose deliberate `None` for Numbers of different units the
     // statement admits ("whenever the partial order gives an answer"), so they are not used here.
-    let mut sorted = vals.clone();
+    let mut sorted = vals.to_vec();
     sorted.sort_by(|x, y| x.cmp(y));
     for w in sorted.windows(2) {
         if w[0].cmp(&w[1]) == Ordering::Greater {
@@ -245,6 +297,7 @@ fn near_scalar_pool(ctx: &mut Ctx) -> Vec<Value> {
 }
 
 pub fn generate(ctx: &mut Ctx) {
+    ctx.case("clones", "-");
     let pool = near_scalar_pool(ctx);
     let show3 = |a: &Value, b: &Value, c: &Value| vx::show(&Value::List(vec![a.clone(), b.clone(), c.clone()]));
     // 1. the near-collision pool crossed pair-wise (third element drawn at random from the pool)
